@@ -16,7 +16,7 @@ static void check_kick(const std::string& kase, KickMap& km, psptr in, psptr out
                        const std::string& keybase) {
     const int cc = (it - 1) / 2;
     const float* off = km.getForce();
-    const float lim = float(n / 2) - 0.005f;   // the offset table encodes displacements in [-n/2, n/2)
+    const float lim = float(3 * n);   // any finite displacement: up to the grid size a source cell and its image can both be interior; beyond it nothing is interior (and nothing judged)
     float* din = in->getData(); float* dout = out->getData();
     double worst = 0;
     for (unsigned c = 0; c < n; c++) {
@@ -32,7 +32,7 @@ static void check_kick(const std::string& kase, KickMap& km, psptr in, psptr out
             // x-kicks share bunch 0's field by design (the drift is the same for every bunch); y-kick maps whose kick is
             // bunch independent (RF) declare that through _lastbunch and share the table of bunch 0 as well
             float a = yaxis ? off[std::min(b, (unsigned)km._lastbunch) * n + r] : off[r];
-            if (!(a <= lim && a >= -float(n / 2))) continue;
+            if (!(a <= lim && a >= -lim)) continue;
             int k = (int)std::floor(((float)(n / 2) + a) - (float)(n / 2));   // displacement as resolved in single precision
             int lo = (int)c - k - (int)(it - 1) + cc, hi = (int)c - k + cc;   // destination cells of source c
             bool interior = c >= 1 && c + 2 <= n && lo >= 1 && hi <= (int)n - 2;
@@ -58,7 +58,7 @@ static void check_kick(const std::string& kase, KickMap& km, psptr in, psptr out
         double tot = 0, mag = 0;
         for (unsigned b = 0; b < nb; b++) for (unsigned r = 0; r < n; r++) {
             float a = yaxis ? off[std::min(b, (unsigned)km._lastbunch) * n + r] : off[r];
-            if (!(a <= lim && a >= -float(n / 2))) continue;
+            if (!(a <= lim && a >= -lim)) continue;
             int k = (int)std::floor(((float)(n / 2) + a) - (float)(n / 2));   // displacement as resolved in single precision
             for (unsigned c = 1; c + 2 <= n; c++) {
                 int lo = (int)c - k - (int)(it - 1) + cc, hi = (int)c - k + cc;
